@@ -329,26 +329,30 @@ struct Layout {
     eol: &'static str,
     final_newline: bool,
     probe_indent: &'static str,
+    /// text after a probe definition on its line (a comment whose characters take several bytes each)
+    probe_tail: &'static str,
 }
 
-const PLAIN: Layout = Layout { dir_indent: "", after_hash: "", trailer: "", eol: "\n", final_newline: true, probe_indent: "" };
+const PLAIN: Layout = Layout { dir_indent: "", after_hash: "", trailer: "", eol: "\n", final_newline: true, probe_indent: "", probe_tail: "" };
 
 const DIR_INDENTS: [&str; 3] = ["", "  ", "\t"];
 const AFTER_HASH: [&str; 3] = ["", " ", "\t "];
-const TRAILERS: [&str; 3] = ["", " // note #else", "  "];
+const TRAILERS: [&str; 4] = ["", " // note #else", "  ", " // — ≤ 漢字 #endif"];
 const EOLS: [&str; 2] = ["\n", "\r\n"];
-const PROBE_INDENTS: [&str; 2] = ["", "   "];
-const N_LAYOUTS: u64 = 3 * 3 * 3 * 2 * 2 * 2;
+/// (indent, tail) of probe lines: plain, indented, followed by a comment of multi-byte characters
+const PROBE_STYLES: [(&str, &str); 3] = [("", ""), ("   ", ""), ("", " // — ≤ 漢字 é")];
+const N_LAYOUTS: u64 = 3 * 3 * 4 * 2 * 2 * 3;
 
 fn layout(idx: u64) -> Layout {
-    let d = decode_index(idx, &[3, 3, 3, 2, 2, 2]);
+    let d = decode_index(idx, &[3, 3, 4, 2, 2, 3]);
     Layout {
         dir_indent: DIR_INDENTS[d[0] as usize],
         after_hash: AFTER_HASH[d[1] as usize],
         trailer: TRAILERS[d[2] as usize],
         eol: EOLS[d[3] as usize],
         final_newline: d[4] == 0,
-        probe_indent: PROBE_INDENTS[d[5] as usize],
+        probe_indent: PROBE_STYLES[d[5] as usize].0,
+        probe_tail: PROBE_STYLES[d[5] as usize].1,
     }
 }
 
@@ -367,7 +371,10 @@ impl FileSpec {
         self.lines.len() + 1
     }
     fn probe(&mut self, prefix: &str, l: &Layout, nope: bool) {
-        self.probe_at(prefix, l.probe_indent, nope)
+        self.probe_at(prefix, l.probe_indent, nope);
+        if !l.probe_tail.is_empty() {
+            self.lines.last_mut().unwrap().text.push_str(l.probe_tail);
+        }
     }
     fn probe_at(&mut self, prefix: &str, indent: &str, nope: bool) {
         let name = format!("{prefix}{}", self.next_row());
@@ -1075,7 +1082,7 @@ impl Layouts {
 }
 impl Family for Layouts {
     fn name(&self) -> String {
-        format!("layouts/all-sequences-len<={}+{}-fixed x 216 layouts", self.max_len, BASES.len())
+        format!("layouts/all-sequences-len<={}+{}-fixed x 432 layouts", self.max_len, BASES.len())
     }
     fn len(&self) -> u64 {
         (self.n_short() + BASES.len() as u64) * N_LAYOUTS
@@ -1435,7 +1442,7 @@ impl FileSetsWithBad {
 // =====================================================================================================
 
 pub fn meta(m: &mut PropMeta) {
-    m.rule = "a file is `module M` followed by a sequence of lines over the 14-line alphabet {probe `struct P<row> {}` / `struct P<row> { x: Nope }` (alternating with the line position, alternation flipped when C is defined), blank, #define A, #undef A, #define B, #if A, #if !A, #if A && B, #if A || B, #if (A), #elif B, #else, #endif, a malformed directive (a different form at each line position: #if, #foo, #if A &, #else X, #define, #, #endif X)}; EVERY sequence (well nested or not) up to the bound x all 8 subsets of {A,B,C} given through SliceOptions.defined_symbols is compiled by the real compiler and compared with a reference preprocessor written from the statement (line classification, stack of regions, #define/#undef effective only in selected regions, from that line on, in that file). Well-formed => no Error other than one E033 per surviving Nope probe, files[i].contents = exactly the selected probes, each span starting at its original row and column, each E033 at the row of its probe and the column of `Nope`. Ill-formed (unbalanced, #elif/#else misplaced, EOF inside #if, malformed directive or expression - also inside unselected regions) => at least one E002 error located in that file on a directive line or where the text ends (no count demanded), no panic. Further families: all well-nested sequences of larger lengths (the largest one with the 4 subsets of {A,B} only - C is never tested by the alphabet); every expression of the grammar (['!'] term {('&&'|'||') term}, term = ident | '(' expr ')'; equal precedence, left associative) with tree depth <= bound over A,B,C x 8 valuations, used as #if and as #elif after a false #if; every token string over {A,B,!,&&,||,(,),&} up to the bound (grammar accepts => evaluated, rejects => E002); every sequence up to a smaller bound plus 10 fixed longer files x 216 layouts (indentation before '#', blanks after '#', trailing // comment or blanks, CRLF, no final newline, indented probes); 34 malformed directive forms inserted at every position of 8 well-formed files, with and without the companion lines their well-formed counterparts would need; chains of nested conditionals of depth 5/6 (condition x else-shape per level, indented, CRLF + comments in half of the runs); all pairs/triples of files made of items {#define A, #undef A, #define B, #undef C, test A, test B, test C} x 8 symbol sets (symbols must not leak between files, command-line symbols are visible in every file), and triples with one ill-formed file. A case is a chunk of compilations (one sequence prefix x every 2- or 3-line suffix x 8 symbol sets; one expression / (sequence, layout) / file set x 8 symbol sets); distinct = distinct chunks; steps = compilations. A compilation is non-trivial if it is ill-formed or if a line is removed and a probe after it survives; a chunk is non-trivial if it contains such a compilation (expression chunks always; file-set chunks when one file defines/undefines what another tests); prefixes of the well-nested families that cannot be completed run nothing and are trivial. Per-compilation outcome classes (well-formed?, definitions kept, number of E002) are counted in extra_counters (`outcome ...`, `compiles_wellformed_nontrivial`).";
+    m.rule = "a file is `module M` followed by a sequence of lines over the 14-line alphabet {probe `struct P<row> {}` / `struct P<row> { x: Nope }` (alternating with the line position, alternation flipped when C is defined), blank, #define A, #undef A, #define B, #if A, #if !A, #if A && B, #if A || B, #if (A), #elif B, #else, #endif, a malformed directive (a different form at each line position: #if, #foo, #if A &, #else X, #define, #, #endif X)}; EVERY sequence (well nested or not) up to the bound x all 8 subsets of {A,B,C} given through SliceOptions.defined_symbols is compiled by the real compiler and compared with a reference preprocessor written from the statement (line classification, stack of regions, #define/#undef effective only in selected regions, from that line on, in that file). Well-formed => no Error other than one E033 per surviving Nope probe, files[i].contents = exactly the selected probes, each span starting at its original row and column, each E033 at the row of its probe and the column of `Nope`. Ill-formed (unbalanced, #elif/#else misplaced, EOF inside #if, malformed directive or expression - also inside unselected regions) => at least one E002 error located in that file on a directive line or where the text ends (no count demanded), no panic. Further families: all well-nested sequences of larger lengths (the largest one with the 4 subsets of {A,B} only - C is never tested by the alphabet); every expression of the grammar (['!'] term {('&&'|'||') term}, term = ident | '(' expr ')'; equal precedence, left associative) with tree depth <= bound over A,B,C x 8 valuations, used as #if and as #elif after a false #if; every token string over {A,B,!,&&,||,(,),&} up to the bound (grammar accepts => evaluated, rejects => E002); every sequence up to a smaller bound plus 10 fixed longer files x 432 layouts (indentation before '#', blanks after '#', trailing // comment or blanks, CRLF, no final newline, indented probes); 34 malformed directive forms inserted at every position of 8 well-formed files, with and without the companion lines their well-formed counterparts would need; chains of nested conditionals of depth 5/6 (condition x else-shape per level, indented, CRLF + comments in half of the runs); all pairs/triples of files made of items {#define A, #undef A, #define B, #undef C, test A, test B, test C} x 8 symbol sets (symbols must not leak between files, command-line symbols are visible in every file), and triples with one ill-formed file. A case is a chunk of compilations (one sequence prefix x every 2- or 3-line suffix x 8 symbol sets; one expression / (sequence, layout) / file set x 8 symbol sets); distinct = distinct chunks; steps = compilations. A compilation is non-trivial if it is ill-formed or if a line is removed and a probe after it survives; a chunk is non-trivial if it contains such a compilation (expression chunks always; file-set chunks when one file defines/undefines what another tests); prefixes of the well-nested families that cannot be completed run nothing and are trivial. Per-compilation outcome classes (well-formed?, definitions kept, number of E002) are counted in extra_counters (`outcome ...`, `compiles_wellformed_nontrivial`).";
     m.explanation = "bounded-exhaustive enumeration of line histories x symbol sets on the real compiler, against a line-oriented reference preprocessor (stack of regions, define/undef state) written from the statement; plain index enumeration through the Family trait instead of stateright because the real preprocessor exposes no incremental state (the state is the line history)";
     m.quick_bound = "all sequences of length <= 5 and all well-nested sequences of length 6, x 8 symbol sets; expression trees depth <= 3, token strings <= 5 tokens; layouts on all sequences <= 2 lines; nesting depth 5; pairs of files <= 2 items, triples <= 1 item";
     m.thorough_bound = "all sequences of length <= 6 and all well-nested sequences of length 7, x 8 symbol sets; all well-nested sequences of length 8 x the 4 subsets of {A,B}; expression trees depth <= 4, token strings <= 6 tokens; layouts on all sequences <= 3 lines; nesting depth 6; pairs of files <= 3 items, triples <= 2 items";
